@@ -107,6 +107,8 @@ def run(tier):
                 return {0: retry, 1: popt}
             return {0: "boundary=first-resp", 1: ("boundary=second+resp " + popt).strip()}
         base = delta.Scenario("f%d-base" % fi, wd, B, T, limit=lim, frag=0, rounds=nrounds, final=False, fetch_opts=opts, round_opts=ropts(""), name="%s: one call" % tag)
+        take = retry is not None and ("stop=" in retry or "20000" in retry)     # a validity scan between the bad response and the good one
+        base.stocktake = take
         base.write_files()
         evs = common.run_driver(base.script(), "plain")
         fe = [e for e in evs if e["op"] == "fetch"]
@@ -149,6 +151,7 @@ def run(tier):
             if session:
                 sc = delta.Scenario("f%d-p%d" % (fi, pi), wd, B, T, limit=lim, frag=0, rounds=nrounds, final=False, fetch_opts=opts,
                                     round_opts=ropts(popt if popt else "cuts=" + ",".join(str(x) for x in range(1, bl))), name="%s: %s" % (tag, pname))
+                sc.stocktake = take
             else:
                 sc = delta.Scenario("f%d-p%d" % (fi, pi), wd, B, T, limit=-1, frag=frag, rounds=1, final=False, fetch_opts=(opts + " " + popt).strip(), name="%s: %s" % (tag, pname))
             sc.write_files(); members.append(sc); scs.append(sc)
